@@ -42,6 +42,7 @@ impl TableRefresh {
         if self.curr_refresh_bucket == table::MAX_BUCKETS {
             self.curr_refresh_bucket = 0;
         }
+        vtrace!("{} R round {}", socket.local_addr(), self.curr_refresh_bucket);
 
         let (this_node_id, target_id, num_good_nodes, num_questionable_nodes, nodes_to_contact) = {
             let table = self.table.lock().unwrap();
